@@ -1,4 +1,183 @@
-import Physt.Theorems.C01
+import Physt.Proofs.Paths
+/-!
+# C03 — incremental filling (fill / fill_n) equals batch construction
+
+1-D histograms over fixed (non-adaptive) bins.  `H1.fill` / `H1.fillData` are the models of
+`Histogram1D.fill` / the counting core of `fill_n`; `calc1d` is batch construction (C01).
+-/
 namespace Physt
-theorem C03_placeholder : True := trivial
+open H1
+
+/-- **find_bin returns the bin that contains the value** (rising bins): index `i` iff
+    `left_i ≤ v < right_i` (last bin right-closed). -/
+theorem C03_find_bin (bins : Bins) (hb : Rising bins) (v : Rat) (i : Nat) :
+    findBinIn bins v = .bin i ↔ inBin bins true i v = true :=
+  findBinIn_bin_iff bins hb v i
+
+/-- `-1` (underflow) exactly for values below the first edge. -/
+theorem C03_find_bin_under (b0 : Bin) (bs : Bins) (hb : Rising (b0 :: bs)) (v : Rat) :
+    findBinIn (b0 :: bs) v = .under ↔ v < b0.1 := by
+  have spec := leCount_spec (b0 :: bs) hb v 0 b0 rfl
+  unfold findBinIn
+  simp only
+  rw [show ((b0 :: bs).filter fun b => decide (b.1 ≤ v)).length = leCount (b0 :: bs) v from rfl]
+  constructor
+  · intro h
+    by_cases hk0 : leCount (b0 :: bs) v = 0
+    · have : ¬ b0.1 ≤ v := fun hle => by have := spec.mpr hle; omega
+      exact not_le.mp this
+    · simp only [hk0, if_false] at h
+      have hkle : leCount (b0 :: bs) v ≤ (b0 :: bs).length := List.length_filter_le _ _
+      have hlt : leCount (b0 :: bs) v - 1 < (b0 :: bs).length := by omega
+      rw [List.getElem?_eq_getElem hlt] at h
+      simp only at h
+      split at h <;> (try split at h) <;> simp at h
+  · intro hv
+    have : leCount (b0 :: bs) v = 0 := by
+      by_contra hne
+      have : b0.1 ≤ v := spec.mp (by omega)
+      linarith
+    simp [this]
+
+/-- `fill` returns what `find_bin` returns, and `find_bin` is a pure function of the bins. -/
+theorem C03_fill_ret (fo : FloatOps) (fuel : Nat) (h : H1) (bins : Bins) (ire : Bool)
+    (hbin : h.binning = .static bins ire) (v w : Rat) (k : NumKind) :
+    (h.fill fo fuel (some v) w k).2 = some (findBinIn bins v) := by
+  unfold fill
+  simp only [adapt, coerce, hbin, findBin, H1.bins, Binning.bins]
+  cases findBinIn bins v <;> rfl
+
+/-- the histogram `h` holds exactly the batch histogram of the points `pts` over `bins` -/
+structure Tracks (bins : Bins) (ire : Bool) (h : H1) (pts : List Pt) : Prop where
+  binning : h.binning = .static bins ire
+  keep : h.keep = true
+  freq : h.freq = (calc1d bins pts).freq
+  err2 : h.err2 = (calc1d bins pts).err2
+  under : h.under = (calc1d bins pts).under
+  over : h.over = (calc1d bins pts).over
+
+theorem tracks_empty (fo : FloatOps) (bins : Bins) (ire : Bool) (hb : Rising bins)
+    (hc : consecutiveB bins = true) (hne : bins ≠ []) (dt : Option DType) :
+    Tracks bins ire (H1.empty fo (.static bins ire) true dt) [] := by
+  obtain ⟨b0, h0⟩ : ∃ b0, bins.head? = some b0 := by
+    cases bins with
+    | nil => exact (hne rfl).elim
+    | cons x xs => exact ⟨x, rfl⟩
+  have hl : bins.getLast? = some (bins.getLast hne) := List.getLast?_eq_some_getLast _
+  have e := C01_under_over bins [] hc b0 _ h0 hl
+  refine ⟨rfl, rfl, ?_, ?_, ?_, ?_⟩
+  · simp [H1.empty, Binning.bins, calc1d_nil_freq bins hb]
+  · simp [H1.empty, Binning.bins, calc1d_nil_err2 bins hb]
+  · rw [e.1]; simp [H1.empty, wsum]
+  · rw [e.2]; simp [H1.empty, wsum]
+
+/-- a `fill_n` batch extends the tracked data by the batch -/
+theorem tracks_fillData (fo : FloatOps) (bins : Bins) (ire : Bool) (hb : Rising bins) (hne : bins ≠ [])
+    (h : H1) (pts d : List Pt) (t : Tracks bins ire h pts) :
+    Tracks bins ire (h.fillData fo d) (pts ++ d) := by
+  have hm := calc1d_append_missed bins hne pts d
+  refine ⟨?_, ?_, ?_, ?_, ?_, ?_⟩
+  · simp [fillData, t.binning]
+  · simp [fillData, t.keep]
+  · simp only [fillData, H1.bins, t.binning, Binning.bins]
+    rw [calc1d_append_freq bins hb, t.freq]
+  · simp only [fillData, H1.bins, t.binning, Binning.bins]
+    rw [calc1d_append_err2 bins hb, t.err2]
+  · simp only [fillData, H1.bins, t.binning, Binning.bins, t.keep, if_true]
+    rw [hm.1, t.under]
+  · simp only [fillData, H1.bins, t.binning, Binning.bins, t.keep, if_true]
+    rw [hm.2, t.over]
+
+/-- **Contents after one `fill`.** For every rising binning, `fill(v, w)` adds exactly the
+    histogram of the single point `(v, w)` to contents and squared errors — whatever `find_bin`
+    says (a bin, underflow, overflow or a gap). -/
+theorem C03_fill_content (fo : FloatOps) (fuel : Nat) (h : H1) (bins : Bins) (ire : Bool) (hb : Rising bins)
+    (hbin : h.binning = .static bins ire) (hf : h.freq.length = bins.length)
+    (he : h.err2.length = bins.length) (v w : Rat) (k : NumKind) :
+    (h.fill fo fuel (some v) w k).1.freq = zipAdd h.freq (calc1d bins [(v, w)]).freq ∧
+    (h.fill fo fuel (some v) w k).1.err2 = zipAdd h.err2 (calc1d bins [(v, w)]).err2 := by
+  have hsingle := calc1d_single bins hb v w
+  have hnone : (∀ i, findBinIn bins v ≠ .bin i) → ∀ i, inBin bins true i v = false := by
+    intro hno i
+    by_contra hne
+    have : inBin bins true i v = true := by simpa using hne
+    exact hno i ((findBinIn_bin_iff bins hb v i).mpr this)
+  unfold fill
+  simp only [adapt, coerce, hbin, findBin, H1.bins, Binning.bins]
+  cases hfb : findBinIn bins v with
+  | bin i =>
+    have hi := (findBinIn_bin_iff bins hb v i).mp hfb
+    simp only [(hsingle.1 i hi).1, (hsingle.1 i hi).2]
+    rw [addAt_eq_zipAdd, addAt_eq_zipAdd, hf, he]
+    exact ⟨rfl, rfl⟩
+  | under =>
+    have hz := hsingle.2 (hnone (by intro i; rw [hfb]; simp))
+    have e1 : zipAdd h.freq (zeros bins.length) = h.freq := by rw [← hf]; exact zipAdd_zeros_right _
+    have e2 : zipAdd h.err2 (zeros bins.length) = h.err2 := by rw [← he]; exact zipAdd_zeros_right _
+    rw [hz.1, hz.2, e1, e2]
+    by_cases hk : h.keep = true <;> simp [hk]
+  | over =>
+    have hz := hsingle.2 (hnone (by intro i; rw [hfb]; simp))
+    have e1 : zipAdd h.freq (zeros bins.length) = h.freq := by rw [← hf]; exact zipAdd_zeros_right _
+    have e2 : zipAdd h.err2 (zeros bins.length) = h.err2 := by rw [← he]; exact zipAdd_zeros_right _
+    rw [hz.1, hz.2, e1, e2]
+    by_cases hk : h.keep = true <;> simp [hk]
+  | gap =>
+    have hz := hsingle.2 (hnone (by intro i; rw [hfb]; simp))
+    have e1 : zipAdd h.freq (zeros bins.length) = h.freq := by rw [← hf]; exact zipAdd_zeros_right _
+    have e2 : zipAdd h.err2 (zeros bins.length) = h.err2 := by rw [← he]; exact zipAdd_zeros_right _
+    rw [hz.1, hz.2, e1, e2]
+    by_cases hk : h.keep = true <;> simp [hk]
+
+/-- **Any chunking.** For consecutive rising bins, entering the data in any list of `fill_n`
+    batches (empty batches included) gives what construction from all the data at once gives:
+    contents, squared errors, underflow and overflow. -/
+theorem C03_paths_fill_n (fo : FloatOps) (bins : Bins) (ire : Bool) (hb : Rising bins)
+    (hc : consecutiveB bins = true) (hne : bins ≠ []) (dt : Option DType) (batches : List (List Pt)) :
+    Tracks bins ire (batches.foldl (fun h d => h.fillData fo d) (H1.empty fo (.static bins ire) true dt))
+      batches.flatten := by
+  have gen : ∀ (bs : List (List Pt)) (h : H1) (pts : List Pt), Tracks bins ire h pts →
+      Tracks bins ire (bs.foldl (fun h d => h.fillData fo d) h) (pts ++ bs.flatten) := by
+    intro bs
+    induction bs with
+    | nil => intro h pts t; simpa using t
+    | cons d ds ih =>
+      intro h pts t
+      have := ih (h.fillData fo d) (pts ++ d) (tracks_fillData fo bins ire hb hne h pts d t)
+      simpa [List.flatten_cons, List.append_assoc] using this
+  simpa using gen batches _ [] (tracks_empty fo bins ire hb hc hne dt)
+
+/-- **Any order.** Construction (and hence, by `C03_paths_fill_n`, any chunked filling) does not
+    depend on the order in which the data are entered. -/
+theorem C03_order (bins : Bins) (hb : Rising bins) (d d' : List Pt) (hp : d.Perm d') :
+    calc1d bins d = calc1d bins d' :=
+  C01_flatten bins d d' hb hp
+
+/-- **Tracking switched off.** With `keep_missed = False` a value outside every bin changes
+    nothing at all (contents, errors, the three missed slots, statistics). -/
+theorem C03_keep_off (fo : FloatOps) (fuel : Nat) (h : H1) (bins : Bins) (ire : Bool)
+    (hbin : h.binning = .static bins ire) (hk : h.keep = false) (v w : Rat)
+    (hout : ∀ i, findBinIn bins v ≠ .bin i) :
+    let h' := (h.fill fo fuel (some v) w .pyInt).1
+    h'.freq = h.freq ∧ h'.err2 = h.err2 ∧ h'.under = h.under ∧ h'.over = h.over ∧
+    h'.inner = h.inner ∧ h'.stats = h.stats := by
+  unfold fill
+  simp only [adapt, coerce, hbin, findBin, H1.bins, Binning.bins, hk]
+  cases hfb : findBinIn bins v with
+  | bin i => exact (hout i hfb).elim
+  | under => simp
+  | over => simp
+  | gap => simp
+
+/-- A NaN is skipped by `fill` exactly as `fill_n` skips it: nothing changes. -/
+theorem C03_fill_nan (fo : FloatOps) (fuel : Nat) (h : H1) (w : Rat) (k : NumKind) :
+    h.fill fo fuel none w k = (h, none) := rfl
+
+/-! Non-vacuity -/
+example : Rising [(0, 1), (1, 3)] ∧ consecutiveB [(0, 1), (1, 3)] = true :=
+  ⟨(risingB_iff _).mp (by decide +kernel), by decide +kernel⟩
+example : findBinIn [(0, 1), (2, 3)] (3 / 2) = .gap ∧ findBinIn [(0, 1), (2, 3)] 3 = .bin 1 ∧
+    findBinIn [(0, 1), (2, 3)] (-1) = .under ∧ findBinIn [(0, 1), (2, 3)] 4 = .over := by
+  decide +kernel
+
 end Physt
